@@ -5,9 +5,9 @@ macro_rules! __array_map_by_val {
     ($array:expr, $($closure:tt)* ) => (
         // evaluating `$array` before the function that's passed as the closure argument
         match $array {
-            array => $crate::__::__parse_closure_1!{
+            __konst_am_array => $crate::__::__parse_closure_1!{
                 ($crate::__array_map2__with_parsed_closure)
-                (array,)
+                (__konst_am_array,)
                 (array_map),
                 $($closure)*
             }
@@ -22,21 +22,21 @@ macro_rules! __array_map2__with_parsed_closure {
         $array:expr,
         ($($pattern:tt)*) $(-> $ret:ty)? $mapper:block $(,)?
     ) => (match $crate::array::ArrayConsumer::new($array) {
-        mut consumer => {
+        mut __konst_am_consumer => {
 
-            let mut builder = $crate::array::ArrayBuilder::new();
+            let mut __konst_am_builder = $crate::array::ArrayBuilder::new();
 
-            $crate::array::ArrayBuilder::infer_length_from_consumer(&builder, &consumer);
+            $crate::array::ArrayBuilder::infer_length_from_consumer(&__konst_am_builder, &__konst_am_consumer);
 
-            while let Some(elem) = $crate::array::ArrayConsumer::next(&mut consumer) {
-                let elem = $crate::__::ManuallyDrop::into_inner(elem);
-                let $($pattern)* = elem;
-                let mapped $(: $ret)? = $mapper;
-                $crate::array::ArrayBuilder::push(&mut builder, mapped);
+            while let Some(__konst_am_elem) = $crate::array::ArrayConsumer::next(&mut __konst_am_consumer) {
+                let __konst_am_elem = $crate::__::ManuallyDrop::into_inner(__konst_am_elem);
+                let $($pattern)* = __konst_am_elem;
+                let __konst_am_mapped $(: $ret)? = $mapper;
+                $crate::array::ArrayBuilder::push(&mut __konst_am_builder, __konst_am_mapped);
             }
-            $crate::__::mem::forget(consumer);
+            $crate::__::mem::forget(__konst_am_consumer);
 
-            $crate::array::ArrayBuilder::build(builder)
+            $crate::array::ArrayBuilder::build(__konst_am_builder)
         }
     })
 }
@@ -75,19 +75,19 @@ macro_rules! __array_from_fn_with_parsed_closure {
 
         ($($pattern:tt)*) $(-> $ret:ty)? $mapper:block $(,)?
     ) => ({
-        let mut i = 0usize;
+        let mut __konst_am_i = 0usize;
 
-        let arr $(: $crate::__::__unparenthesize_ty!($($type)*))? =
+        let __konst_am_arr $(: $crate::__::__unparenthesize_ty!($($type)*))? =
             $crate::__array_map2__with_parsed_closure!{
                 $crate::__::unit_array(),
                 (()) $(-> $ret)? {
-                    let $($pattern)* = i;
-                    i+=1;
+                    let $($pattern)* = __konst_am_i;
+                    __konst_am_i+=1;
                     $mapper
                 }
             };
 
-        arr
+        __konst_am_arr
     });
 }
 
